@@ -110,23 +110,22 @@ DeltaRound ==
      IN /\ delta' = new
         /\ store' = IF MergeTiming = "eager" THEN store \cup new ELSE store \cup delta
         /\ created' = created + Cardinality(new)
-        /\ phase' = IF new = {} THEN "do" ELSE "delta"
+        /\ phase' = IF new # {} THEN "delta" ELSE IF doDone THEN "next" ELSE "do"
   /\ round' = round + 1
   /\ UNCHANGED <<prog, todo, cur, outcome, doDone>>
 
 \* do-transforms run once per stratum, after the fixpoint of its plain rules; what they add is
-\* the delta of further incremental rounds ("rerun")
+\* the delta of further incremental rounds ("rerun"), after which the stratum is finished
 DoPhase ==
-  /\ phase = "do"
-  /\ IF doDone THEN /\ phase' = "next" /\ UNCHANGED <<store, delta, doDone, created>>
-     ELSE LET base == store \cup delta
-              new == (UNION {Aggregate(r, base) : r \in cur.dos}) \ base IN
-          /\ store' = base \cup new
-          /\ created' = created + Cardinality(new)
-          /\ doDone' = TRUE
-          /\ IF DoFeedback = "rerun" /\ new # {}
-             THEN delta' = new /\ phase' = "delta"
-             ELSE delta' = delta /\ phase' = "next"
+  /\ phase = "do" /\ ~doDone
+  /\ LET base == store \cup delta
+         new == (UNION {Aggregate(r, base) : r \in cur.dos}) \ base IN
+     /\ store' = base \cup new
+     /\ created' = created + Cardinality(new)
+     /\ doDone' = TRUE
+     /\ IF DoFeedback = "rerun" /\ new # {}
+        THEN delta' = new /\ phase' = "delta"
+        ELSE delta' = delta /\ phase' = "next"
   /\ UNCHANGED <<prog, todo, cur, round, outcome>>
 
 Finish ==
